@@ -1,0 +1,62 @@
+//go:build verif
+// +build verif
+
+// Package c08 re-exports what the C08 (fork isolation) harness needs from the internal packages.
+package c08
+
+import (
+	"github.com/sergi/go-diff/diffmatchpatch"
+	"gopkg.in/src-d/hercules.v10/internal/burndown"
+	"gopkg.in/src-d/hercules.v10/internal/core"
+	"gopkg.in/src-d/hercules.v10/internal/plumbing"
+	"gopkg.in/src-d/hercules.v10/internal/plumbing/identity"
+	"gopkg.in/src-d/hercules.v10/internal/rbtree"
+)
+
+// Plumbing items and their data types.
+type (
+	TreeDiff        = plumbing.TreeDiff
+	BlobCache       = plumbing.BlobCache
+	TicksSinceStart = plumbing.TicksSinceStart
+	CachedBlob      = plumbing.CachedBlob
+	FileDiffData    = plumbing.FileDiffData
+	PipelineItem    = core.PipelineItem
+)
+
+// rbtree and tracker types.
+type (
+	Allocator = rbtree.Allocator
+	RBTree    = rbtree.RBTree
+	Item      = rbtree.Item
+	File      = burndown.File
+)
+
+// Diff is one edit of FileDiffData.Diffs.
+type Diff = diffmatchpatch.Diff
+
+// Edit kinds.
+const (
+	DiffEqual  = diffmatchpatch.DiffEqual
+	DiffInsert = diffmatchpatch.DiffInsert
+	DiffDelete = diffmatchpatch.DiffDelete
+)
+
+// Constructors.
+var (
+	NewAllocator = rbtree.NewAllocator
+	NewRBTree    = rbtree.NewRBTree
+)
+
+// Names of dependencies and special values.
+const (
+	DependencyCommit      = core.DependencyCommit
+	DependencyIndex       = core.DependencyIndex
+	DependencyIsMerge     = core.DependencyIsMerge
+	DependencyTreeChanges = plumbing.DependencyTreeChanges
+	DependencyBlobCache   = plumbing.DependencyBlobCache
+	DependencyFileDiff    = plumbing.DependencyFileDiff
+	DependencyTick        = plumbing.DependencyTick
+	DependencyAuthor      = identity.DependencyAuthor
+	AuthorMissing         = identity.AuthorMissing
+	TreeMergeMark         = burndown.TreeMergeMark
+)
